@@ -188,6 +188,9 @@ QUERY_TEMPLATES = [
     "E<> {B1} under S1", "Pr[<={N1}](<> {B1}) under S1",
     "A[] forall (i : int[0,3]) arr[i] >= {I1}", "E<> exists (i : int[0,3]) arr[i] == {I1}", "A[] sum (i : int[0,3]) arr[i] < {I1}",
     "A[] P.s0 imply {B1}", "E<> P.s0 && {B1}", "A[] not deadlock", "E<> deadlock && {B1}",
+    # members of processes of a process set: `T(i).x`
+    "E<> T(1).v == {I1}", "A[] T({I1}).t0 imply {B1}", "E<> T2(2, 1).w[1] > T({I2}).v", "A[] T2({I1}, 0).t1 || T2(0, {I2}).v < {N1}",
+    "E<> T2(1, 0).w[T(3).v] == {I1}", "sup: T(0).v, T2(3, 1).v + {I1}",
 ]
 
 
